@@ -109,7 +109,7 @@ def gen_conv(rng, shape, relu):
 
 
 def gen_torch(rng, tier):
-    kind = rng.choice(["tab", "img_last", "img_first", "img_first", "conv", "conv", "convrelu"])
+    kind = rng.choice(["tab", "img_last", "img_last", "img_first", "img_first", "conv", "conv", "convrelu"])
     n = rng.randint(1, 3)
     case = dict(stream="torch", kind=kind)
     if kind == "tab":
@@ -119,7 +119,7 @@ def gen_torch(rng, tier):
     else:
         shape = gen_shape(rng)
         if kind == "img_last":
-            case["dummy_conv"] = rng.random() < 0.4
+            case["dummy_conv"] = rng.random() < 0.6
             case["request"] = False if case["dummy_conv"] else rng.choice([None, None, False])
         elif kind == "img_first":
             case["dummy_conv"] = rng.random() < 0.5
@@ -160,7 +160,8 @@ def gen_tree(rng, depth, p_conv):
 
 
 def gen_ctor(rng, tier):
-    return dict(stream="ctor", tree=gen_tree(rng, 0, rng.choice([0.0, 0.0, 0.15, 0.3])), request=rng.choice([None, None, True, False]))
+    # explicit requests (True / False) on trees WITH and WITHOUT a Conv2d are what distinguishes "as detected" from "as requested"
+    return dict(stream="ctor", tree=gen_tree(rng, 0, rng.choice([0.0, 0.15, 0.3, 0.5])), request=rng.choice([None, None, True, False, False]))
 
 
 def gen_callable(rng, tier):
@@ -232,7 +233,7 @@ def generate(rng, tier):
         # with the opposite channel convention (a decoy): which wrapper an explainer holds must not depend on it
         c["decoy"] = len(c["shape"]) == 3 and rng.random() < 0.5
         cases.append(c)
-    for _ in range(15 * k):
+    for _ in range(40 * k):
         cases.append(gen_ctor(rng, tier))
     for _ in range(35 * k):
         cases.append(gen_callable(rng, tier))
